@@ -124,16 +124,25 @@ def run(rep):
     rep.count("optimal-inputs-with-differing-re-encoding", len(ods))
     tmp = tempfile.mkdtemp(prefix="oxiverif-c04-")
     try:
+        # extra flags that do not ask for forced output: none of them may make the executable deliver anything but a strictly
+        # smaller file or the original bytes; --preserve onto an existing, longer destination must not leave a tail behind
+        flagsets = [[], ["--preserve"], ["--fix"], ["--fast"], ["--nz"], ["--preserve", "--fix"]]
         for k, x in enumerate(ods):
-            for route in ("inplace", "out", "dir", "stdout", "stdin-implicit", "stdin-stdout", "stdin-out"):
-                d = os.path.join(tmp, f"{k}-{route}")
+          for fi, extra_flags in enumerate(flagsets if not quick else flagsets[: 3 + (k % 2) * 3]):
+            for route in ("inplace", "out", "dir", "stdout", "stdin-implicit", "stdin-stdout", "stdin-out", "out-existing"):
+                if fi and route.startswith("stdin"):
+                    continue
+                d = os.path.join(tmp, f"{k}-{fi}-{route}")
                 os.makedirs(d)
                 f = os.path.join(d, "in.png")
                 open(f, "wb").write(x)
                 os.utime(f, ns=(1_400_000_000_000_000_000, 1_400_000_000_000_000_000))
                 o2 = os.path.join(d, "out.png")
+                if route == "out-existing":
+                    open(o2, "wb").write(b"an older, much longer file at the destination " * 900)
                 argv = {"inplace": [f], "out": ["--out", o2, f], "dir": ["--dir", os.path.join(d, "sub"), f], "stdout": ["--stdout", f],
-                        "stdin-implicit": ["-"], "stdin-stdout": ["--stdout", "-"], "stdin-out": ["--out", o2, "-"]}[route]
+                        "stdin-implicit": ["-"], "stdin-stdout": ["--stdout", "-"], "stdin-out": ["--out", o2, "-"], "out-existing": ["--out", o2, f]}[route]
+                argv = extra_flags + argv
                 p = subprocess.run([cli] + argv, input=x if route.startswith("stdin") else None, stdout=subprocess.PIPE, stderr=subprocess.PIPE, timeout=300)
                 rep.evaluations += 1
                 rep.count("route:" + route)
@@ -141,12 +150,14 @@ def run(rep):
                 got = {"inplace": lambda: open(f, "rb").read(), "out": lambda: open(o2, "rb").read() if os.path.exists(o2) else None,
                        "dir": lambda: open(os.path.join(d, "sub", "in.png"), "rb").read() if os.path.exists(os.path.join(d, "sub", "in.png")) else None,
                        "stdout": lambda: p.stdout, "stdin-implicit": lambda: p.stdout, "stdin-stdout": lambda: p.stdout,
-                       "stdin-out": lambda: open(o2, "rb").read() if os.path.exists(o2) else None}[route]()
+                       "stdin-out": lambda: open(o2, "rb").read() if os.path.exists(o2) else None,
+                       "out-existing": lambda: open(o2, "rb").read() if os.path.exists(o2) else None}[route]()
                 desc = {"cases": [f"cli {' '.join(argv)}"], "input_hex": x.hex(), "route": route}
-                if p.returncode != 0 or got != x:
+                smaller_png = got is not None and len(got) < len(x) and got[:8] == pg.SIG and got[-12:-8] == b"\0\0\0\0" and got[-8:-4] == b"IEND"
+                if p.returncode != 0 or (got != x and not (extra_flags and smaller_png)):
                     rep.violation("C04:route:" + route, f"{route}: the input cannot be improved, yet the executable delivered "
-                                  f"{'nothing' if got is None else str(len(got)) + ' bytes that are not the original'} (exit {p.returncode}, input {len(x)} bytes)", desc)
-                if route == "inplace" and os.stat(f).st_mtime_ns != 1_400_000_000_000_000_000:
+                                  f"{'nothing' if got is None else str(len(got)) + ' bytes that are not the original'} (exit {p.returncode}, input {len(x)} bytes, flags {extra_flags})", desc)
+                if route == "inplace" and got == x and os.stat(f).st_mtime_ns != 1_400_000_000_000_000_000:
                     rep.violation("C04:route:inplace-touched", "in place without improvement: the file was rewritten (modification time changed)", desc)
     finally:
         shutil.rmtree(tmp, ignore_errors=True)
